@@ -1000,6 +1000,12 @@ func (g *HistGen) genPages() {
 				g.notePut(t, it)
 			}
 			n := 0
+			// ... first in descending order with a key condition (no random draw here: the histories of other scenarios stay as they are)
+			kt := &Cond{K: "cmp", Op: "=", L: pathOp(ix.Hash[0]), R: valOp(S("tie"))}
+			qp := &Op{Op: "pages", Table: HexS(t.Name), Index: HexS(ix.Name), Forward: false, Limit: 1, MaxPages: 40, KeyTree: kt, pkAttrs: pkAttrsOf(t)}
+			qp.KeyCond = HexS(ix.Hash[0] + " = :tie")
+			qp.setExprs(map[string]string{}, map[string]AV{":tie": S("tie")})
+			g.ops = append(g.ops, qp)
 			g.ops = append(g.ops, &Op{Op: "pages", Table: HexS(t.Name), Index: HexS(ix.Name), Scan: true, Forward: true, Limit: 1, MaxPages: 40, DelAfter: &n,
 				pkAttrs: pkAttrsOf(t)})
 			return
@@ -1245,6 +1251,8 @@ func (g *HistGen) genMgmt() {
 			}
 			g.ops = append(g.ops, &Op{Op: "updateTable", Table: HexS(t.Name), Changes: []IndexChange{{Create: &IndexDef{Name: HexS(ix.Name), Key: *keyDefOf(ix.Hash, ix.Range), TP: !t.PPR || g.r.Chance(40)}}}})
 			t.GSI = append(t.GSI, ix)
+			// the items that were there before are in the new index: read it at once
+			g.ops = append(g.ops, &Op{Op: "query", Table: HexS(t.Name), Index: HexS(ix.Name), Scan: true, Forward: true})
 			if stray != nil {
 				key := Item{stray[0]}
 				if t.Range != nil {
